@@ -262,6 +262,11 @@ def checkImplReqs (st : ProcEng) (reqs : List ImplReq) : ProcEng × List String 
       match h with
       | none => (st, fails ++ ["C04 proc: a connect request carries a license no application has"])
       | some h =>
+        -- C05 / C03: nothing is sent to the collector on behalf of an application the daemon does not track (the table holds
+        -- at most AppLimit applications: `C05_app_limit_all_histories`)
+        let fails := if (getApp st.s h).isNone && q.cmd == "preconnect" then fails ++
+            [s!"C05 proc: a connect attempt was launched for application {h}, which the daemon does not track (at most {Gen.Limits.AppLimit} applications are)",
+             s!"C03 lifecycle: a connect attempt was launched for application {h}, which is not in the application table (it is full)"] else fails
         -- "no connect is ever attempted again": no NEW attempt (preconnect) after the verdict; an attempt that was already
         -- in flight when the verdict came may still take its connect step (its result is ignored: C03_stale_attempt_ignored)
         let isTerm := st.terminal.any (·.1 == h)
